@@ -8,7 +8,7 @@ CLAIMS['C14'] = dict(
        "negative operands ignored); fieldComplexity returns the custom cost iff it is not below the children else 1+children saturating; "
        "interfaceFieldComplexity is the max over every implementor; selectionSetComplexity's result is the saturating sum (ghost accumulator, "
        "loop invariant) of each selection's contribution, descends exactly for object/interface/union typed fields, never negative, never decreasing; "
-       "ComplexityLimit.MutateOperationContext rejects iff complexity > limit. Unbounded in the integers and in the number of selections.",
+       "ComplexityLimit.MutateOperationContext rejects iff complexity > limit. Unbounded in the integers and in the number of selections. The generated Complexity dispatch: every case label is T.f of a generated (type, field) pair and every pair has its label (family complexityswitch on the regenerated test servers), so the user's complexity function is found under the schema's names.",
   note=COMMON_NOTE + "User complexity functions are arbitrary (any result considered). gqlparser helpers (ArgumentMap, GetPossibleTypes, Type.Name) trusted pure. "
        "Two-run monotonicity is only proved as the per-selection inductive step.")
 
@@ -23,7 +23,7 @@ CLAIMS['C02'] = dict(
        "(int, int64, int32, uint32, uint64, string, json.Number, nil) success implies the mathematical value of the result equals the mathematical "
        "value of the input (no number silently changed), out-of-range and wrong-sign inputs and unknown dynamic types yield an error, no panic; "
        "UnmarshalString/ID/Boolean total on the JSON types; CoerceList: nil->empty, list passed through unchanged, scalar v -> [v]. "
-       "All inputs, unbounded. The generated argument/input-object code (args.gotpl, input.gotpl) is covered by the probe-proved family contracts listed in the evidence when present.",
+       "All inputs, unbounded. The generated argument/input-object code (args.gotpl, input.gotpl) is covered by the probe-proved family contracts listed in the evidence when present. Typed Go lists handed to the executor as variables keep every element (CoerceList, repaired defect D25). Input-field defaults for Omittable Go fields are checked on the /verif probe inputdefaults (the probe schema's defaults written out as mandatory anchors).",
   note=COMMON_NOTE + "strconv parse/format functions trusted to compute the decimal value numval(s). Floats, custom scalars, Omittable and gqlparser's variable coercion are not decided.")
 
 CLAIMS['C08'] = dict(
@@ -41,7 +41,7 @@ CLAIMS['C10'] = dict(
   text="For every request body / upload map / websocket start payload: every implicit panic site (nil dereference, failed type assertion, index, nil-map write) in gqlgen's own code of "
        "POST/GET/GRAPHQL/UrlEncodedForm/SSE/MultipartMixed/MultipartForm.Do, UrlEncodedForm.parse*, wsConnection.subscribe and RawParams.AddUpload is a discharged obligation "
        "(AddUpload fully nopanic for any variables tree, key and path); CreateOperationContext is only called with non-nil parameters (JSON null bodies); in MultipartForm.Do the body is read only "
-       "after the size-limited reader is installed and every created temp file has its removal deferred before anything else can fail (ghost counters, loop invariant); the websocket subscription goroutine lets no panic escape. A refused websocket handshake always ends in a protocol close: wsConnection.init returns false only after close() was called, for every first message including a connection_init whose payload is not an object (repaired defect D10).",
+       "after the size-limited reader is installed and every created temp file has its removal deferred before anything else can fail (ghost counters, loop invariant); the websocket subscription goroutine lets no panic escape. A refused websocket handshake always ends in a protocol close: wsConnection.init returns false only after close() was called, for every first message including a connection_init whose payload is not an object (repaired defect D10). `safe` is transitive over gqlgen's own code: every gqlgen callee of a function under `safe` is itself under a contract that speaks about panics (safe/nopanic/noescape) or is an explicitly listed assumption, so code moved into a new helper does not leave the claim; the websocket message loop (run, init, close, write, closeOnCancel, Websocket.Do, nextMessageWithTimeout) is under it. Multipart uploads are buffered in memory only under a known Content-Length below MaxMemory (repaired defect D24).",
   note=COMMON_NOTE + "net/http, mime/multipart, os, io, encoding/json, gorilla/websocket trusted not to panic on client bytes; stable-field assumption for wsConnection.active/exec; "
        "bytesReader and the websocket message tables are not yet under contract; delivery of exact upload bytes is not decided.")
 
@@ -80,7 +80,7 @@ CLAIMS['C15'] = dict(technique=GOCV,
 CLAIMS['C16'] = dict(technique=GOCV,
   text="Construction-site contracts on graphql/introspection: at every append/assignment that builds an introspection element the stored name, description, type wrapper, default value and DEPRECATION equal those of the schema element the loop is at "
        "(each argument's own arg.Directives.ForName(\"deprecated\"), not the field's), elements are produced in schema order with exactly the documented skips (ghost count of eligible fields = output length, loop invariants), "
-       "WrapTypeFromDef/WrapTypeFromType/defaultValue/IsDeprecated are exact. The disabled-introspection gate lives in generated code and is covered by the probe-proved family contract when listed in the evidence.",
+       "WrapTypeFromDef/WrapTypeFromType/defaultValue/IsDeprecated are exact. The disabled-introspection gate lives in generated code and is covered by the probe-proved family contract when listed in the evidence. Introspection never writes the schema: OfType unwraps NON_NULL on a private copy (modifies nothing), the list builders write no field of any schema object; directive arguments report their own deprecation (repaired defect D21).",
   note=COMMON_NOTE + "gqlparser lookups trusted pure; Schema.Types/Directives ordering (sort) and Value.String not decided; the whole round trip 'schema can be rebuilt' is not a per-function contract.")
 
 CLAIMS['C01'] = dict(technique=GOCV,
@@ -88,7 +88,7 @@ CLAIMS['C01'] = dict(technique=GOCV,
        "collected fields with NO selections (so merging never writes into the parsed, possibly cached, document); FieldContext.Path returns freshly allocated storage (frame: no pre-existing location written) so sibling paths cannot alias; "
        "a fragment counts as visited only through a spread that passed @skip/@include (repaired defect D12); getOrCreateAndAppendField moves past an entry only if it must not be merged - same field name and response key with the same, an equally named or (like the new one) an interface parent definition is one entry (repaired defect D13); "
        "AddError records exactly one presented error for a non-nil error; HasFieldError is the existential over recorded paths; Array/FieldSet writers emit entries in order with correct separators. "
-       "Generated field/object/list functions are covered by probe-proved family contracts when listed in the evidence.",
+       "Generated field/object/list functions are covered by probe-proved family contracts when listed in the evidence. The generator's buildObject takes an object's implementor list (the type conditions generated code hands to CollectFields) from Schema.GetImplements - interfaces and unions - one entry per element; in a generated package that has the field-directive dispatcher _fieldMiddleware every field function goes through it (family fieldmw, checked on the single-file AND the follow-schema layout in the quick tier).",
   note=COMMON_NOTE + "Partial by design (DESIGN.md C01): equivalence with the whole execution algorithm and all schemas other than the probes are not decided.")
 
 CLAIMS['C06'] = dict(technique=GOCV,
@@ -103,7 +103,7 @@ PROBE = (" Generated-code parts are probe-proved: gqlgen's generator is run from
 CLAIMS['C04'] = dict(technique=GOCV + "; family contracts instantiated on code regenerated from the templates",
   text="Panic containment with the engine's panic/defer/recover model: every generated field function lets no panic escape and on a recovered panic calls the recover hook exactly once, reports exactly one error and returns null; "
        "fieldContext functions with arguments contain argument-unmarshal panics (hook once, one error); the closures the object executor hands to the concurrent scheduler, the list element closures and the deferred-group goroutine satisfy the spawn rule "
-       "(no panic can leave a goroutine), list element closures still perform their WaitGroup.Done; runtime: Server.ServeHTTP never lets a panic escape and answers a recovered panic with exactly one 422 body, the websocket subscription goroutine lets no panic escape." + PROBE,
+       "(no panic can leave a goroutine), list element closures still perform their WaitGroup.Done; runtime: Server.ServeHTTP never lets a panic escape and answers a recovered panic with exactly one 422 body, the websocket subscription goroutine lets no panic escape. Closure families (the closures object executors hand to the scheduler: 113, list element closures: 43 in the quick tier) are verified under their own tags; a null NonNull field is counted in the field set the closure is run for (its own parameter), never in a captured one; federation entity resolution (resolveEntity / resolveManyEntities / the per-representation goroutines) is checked on the regenerated entityresolver probe." + PROBE,
   note=COMMON_NOTE + "User recover/presenter functions assumed not to panic; FieldSet.Dispatch panic-freedom assumed from its registered closures; value preservation outside the failed subtree and liveness not decided.")
 
 CLAIMS['C05'] = dict(technique=GOCV + "; family contracts instantiated on code regenerated from the templates; ghost join accounting",
@@ -115,21 +115,21 @@ CLAIMS['C05'] = dict(technique=GOCV + "; family contracts instantiated on code r
 CLAIMS['C13'] = dict(technique=GOCV + "; family contracts instantiated on code regenerated from the templates",
   text="Narrow: the merge equivalence is a relation between two executions and is not decided. Decided: collectFields marks fields collected through @defer fragments only after inclusion checks; in every generated object function a deferred field is registered only in the FieldSet of its label and never also in the main set, "
        "and deferred groups are only started when the object itself is valid; processDeferredGroup increments the pending counter once and starts exactly one goroutine that dispatches the group once and sends exactly one result carrying the group's own path and label. "
-       "Delivery order of nested groups (repaired defect D19): a group reads the `delivered` channel of the group it is nested in from its context, resolves its fields under a context carrying its own channel, sends only after having received from the parent's channel (when there is one) and closes its own channel right after its send." + PROBE,
+       "Delivery order of nested groups (repaired defect D19): a group reads the `delivered` channel of the group it is nested in from its context, resolves its fields under a context carrying its own channel, sends only after having received from the parent's channel (when there is one) and closes its own channel right after its send. Response handlers marshal each payload into a per-call buffer (family exec$closure)." + PROBE,
   note=COMMON_NOTE + "Channel sends/receives/closes are ghost events: that 'sent after the parent' implies 'delivered after the parent' rests on the single consumer of deferredResults; hasNext sequencing is not decided.")
 
 CLAIMS['C20'] = dict(technique=GOCV + "; family contracts instantiated on federation code regenerated from the templates",
   text="On the generated _entities code: buildRepresentationGroups records for every entry the loop index of its representation and that very representation (hence pairwise distinct indices); __resolve_entities returns a list with one slot per representation and joins every group; "
        "in resolveEntityGroup every spawned closure writes at most one slot, list[rep.index] of its own representation, only when its resolver succeeded, and reports at most one error otherwise, one goroutine and one Done per representation; "
        "resolveManyEntities zips positionally over a typedReps slice proved to have exactly len(reps) entries; resolveEntity/resolveManyEntities let no panic escape (they run on goroutines); a resolver name is returned only if not all key fields were null. "
-       "Batch resolvers and several @key directives (repaired defect D20, probe /verif/probes/fedmultikeys): every representation of a group went through the resolver lookup before the group - or what is left of it after those selecting another resolver were split off - is handed to a batch resolver." + PROBE,
+       "Batch resolvers and several @key directives (repaired defect D20, probe /verif/probes/fedmultikeys): every representation of a group went through the resolver lookup before the group - or what is left of it after those selecting another resolver were split off - is handed to a batch resolver. The index recorded for a representation is its position in the REQUEST (ghost copy of the list handed in), whatever is done to the local slice." + PROBE,
   note=COMMON_NOTE + "No thread model: schedule independence follows only from the proved index-disjointness. Fieldset parsing and other schemas not decided.")
 
 CLAIMS['C11'] = dict(technique=GOCV,
   text="Narrow: the protocol is a concurrent state machine and its all-interleavings quantifier is not decidable here. Decided sequential facts on the real websocket code: wsConnection.init returns true only after the FIRST message was connection_init, the init function accepted it and the ack was written, and never touches the executor; "
        "Websocket.Do enters the message loop only after init returned true; close() is idempotent (second call: no frame, no cancel, no callback; first call: exactly one close frame and one socket close, callback at most once) with the mutex held around the frame write and balanced on every path; "
        "write() sends only while holding the mutex; run() hands the close watcher the context derived for (and cancelled with) the loop and reaches subscribe only from a start message; the subscription goroutine dispatches only after CreateOperationContext succeeded, drains the handler, and cannot die from a panic; a refused handshake always closes (D10). "
-       "One operation per id: registering a cancel function must not replace the one of a running operation - this obligation fails on the current code and is the known finding D11 (results after complete, operation that cannot be stopped).",
+       "One operation per id: registering a cancel function must not replace the one of a running operation - this obligation fails on the current code and is the known finding D11 (results after complete, operation that cannot be stopped). The frame handed to an operation goroutine is the reader iteration's own variable (freshPerIteration), so results, errors and the completion keep the id the operation was started with.",
   note=COMMON_NOTE + "gorilla/websocket, message exchangers and user callbacks trusted; channel operations are not modelled; ordering across goroutines, stop/complete races and 'at most one completion per id' are NOT decided.")
 
 CLAIMS['C12'] = dict(technique=GOCV,
@@ -137,7 +137,7 @@ CLAIMS['C12'] = dict(technique=GOCV,
        "(typestate ghost, closures passed to the locking helper are verified inline under held=true); the connection is closed in the same lock hold that writes `complete` (or before it), write() is a no-op on a closed connection, and Do stops the keep-alive on EVERY exit, panics included (onexit clause) - so no ping follows `complete` and nothing touches the ResponseWriter after the handler returned (repaired defect D9); "
        "writeJsonWithSSE emits one event per payload with one json.Marshal of the response (compact, no raw newline), the completion marker is written exactly once after the single dispatch; "
        "multipartResponseAggregator.flush works entirely under its mutex, writes nothing when nothing is pending, writes the initial payload at most once and clears it, writes the pending incremental payloads at most once in one array and clears them, "
-       "and ends with a delimiter whose 'closing' flag is exactly !hasNext; Add stores payloads under the mutex in arrival order.",
+       "and ends with a delimiter whose 'closing' flag is exactly !hasNext; Add stores payloads under the mutex in arrival order. Every response handler Exec returns marshals into a buffer declared inside the handler call (family exec$closure on the regenerated singlefile server; repaired defect D27: subscription events shared one buffer and were corrupted when multipart/mixed batched them).",
   note=COMMON_NOTE + "select/channel operations modelled as nondeterministic choice; exactly-once delivery across goroutines, disconnects and JSON validity (encoding/json) are not decided.")
 
 CLAIMS['C19'] = dict(technique=GOCV,
